@@ -124,7 +124,9 @@ fn exec<'a>(kind: &str, it: &'a Item, open: &mut Option<Open<'a>>) -> Res {
 			match kind {
 				"write_slp" => of_bytes(real::write_slp(&g)),
 				"write_slp_fail" => {
-					match guard(|| slippi::write(&mut real::FailWriter { limit: b.len() * 2 / 3, written: 0 }, &g)) {
+					// the sink fails inside the frame data, or (every other replay) inside the last 20 bytes: the metadata
+					let limit = if b.len() % 2 == 0 { b.len() * 2 / 3 } else { b.len() - 20 };
+					match guard(|| slippi::write(&mut real::FailWriter { limit, written: 0 }, &g)) {
 						Outcome::Ok(_) => Res::Other("a write into a failing sink succeeded".into()),
 						Outcome::Err(_) => Res::Err,
 						o => Res::Other(format!("{}: {}", o.kind(), o.detail())),
